@@ -125,9 +125,38 @@ func (e *Engine) keyOf(fn *ssa.Function) string {
 
 func relName(fn *ssa.Function) string {
 	if fn.Parent() != nil {
+		// a closure is keyed by the local variable it is assigned to, when there is one
+		// (stable when other closures are added or removed); otherwise by its ordinal
+		for _, b := range fn.Parent().Blocks {
+			for _, ins := range b.Instrs {
+				if dr, ok := ins.(*ssa.DebugRef); ok && !dr.IsAddr {
+					if mc, ok := dr.X.(*ssa.MakeClosure); ok && mc.Fn == fn {
+						if o := dr.Object(); o != nil {
+							return relName(fn.Parent()) + "." + o.Name()
+						}
+					}
+					if f2, ok := dr.X.(*ssa.Function); ok && f2 == fn {
+						if o := dr.Object(); o != nil {
+							return relName(fn.Parent()) + "." + o.Name()
+						}
+					}
+				}
+			}
+		}
 		return relName(fn.Parent()) + "." + strings.TrimPrefix(fn.Name(), fn.Parent().Name())
 	}
 	return fn.RelString(fn.Pkg.Pkg)
+}
+
+// fullKey maps a contract key as passed around at call sites to the key of fnByKey.
+func (e *Engine) fullKey(key string) string {
+	if _, ok := e.fnByKey[key]; ok {
+		return key
+	}
+	if _, ok := e.fnByKey["::"+key]; ok {
+		return "::" + key
+	}
+	return key
 }
 
 func (e *Engine) contractFor(fn *ssa.Function) (string, *Contract) {
@@ -677,6 +706,9 @@ func (fc *FnCtx) frameCheck(rs *State, env *SpecEnv, pos token.Pos) {
 		if a.Src == "everything" {
 			return
 		}
+	}
+	if fc.ct.AssignsInferred {
+		return
 	}
 	if fc.havocedAll {
 		// a callee without frame was havoc'd: nothing can be proved about the frame
